@@ -274,6 +274,8 @@ type BlockUtils struct {
 	// Gates for E2 (blocking SPI): called with the context, may wait on it.
 	ReqGate func(ctx context.Context, h primitives.BlockHeight)
 	ValGate func(ctx context.Context, h primitives.BlockHeight)
+	// HonourCtx: ValidateBlockProposal returns ctx.Err() (no verdict) when its context is cancelled by the time the gate lets it go
+	HonourCtx bool
 }
 
 func (b *BlockUtils) RequestNewBlockProposal(ctx context.Context, h primitives.BlockHeight, m primitives.MemberId, prev interfaces.Block) (interfaces.Block, primitives.BlockHash) {
@@ -300,6 +302,11 @@ func (b *BlockUtils) RequestNewBlockProposal(ctx context.Context, h primitives.B
 func (b *BlockUtils) ValidateBlockProposal(ctx context.Context, h primitives.BlockHeight, m primitives.MemberId, block interfaces.Block, bh primitives.BlockHash, prev interfaces.Block) error {
 	if b.ValGate != nil {
 		b.ValGate(ctx, h)
+	}
+	if b.HonourCtx && ctx.Err() != nil {
+		// a consumer that honours the context it was given: once cancelled it gives up WITHOUT a verdict on the block
+		b.Vals = append(b.Vals, ValCall{uint64(h), TagOf(block), false, true, string(m)})
+		return ctx.Err()
 	}
 	ok := block != nil && HashOf(block) != nil && bytes.Equal(HashOf(block), bh) && block.Height() == h && !b.Invalid[TagOf(block)]
 	if block == nil && b.AcceptNil {
